@@ -194,6 +194,43 @@ def _molecule(ctx):
     rep.sample('LJShape2::energy: ' + why)
 
 
+def _items_source(f, t, op, depth):
+    """(param local, field path) an iterator operand ranges over; follows std iter/into_iter/deref and workspace helper
+    functions (Shape::iter, IntoIterator for &Shape) whose body simply iterates a field of their receiver."""
+    path = []
+    cur = op
+    for _ in range(12):
+        o = t.origin(cur)
+        if o['o'] == 'arg':
+            return (o['l'], field_path(o['p']) + path)
+        if o['o'] != 'call' or not o['term']['args']:
+            return 'a factor of the product does not come from a parameter'
+        term = o['term']
+        cb = f.body_of_fnconst(term['func'])
+        if cb is not None:
+            if depth >= 4:
+                return 'helper nesting too deep'
+            inner = _items_source(f, Tracer(cb), {'k': 'copy', 'l': 0, 'p': []}, depth + 1)
+            if isinstance(inner, str):
+                return inner
+            if inner[0] != 1:
+                return 'helper %s does not iterate its receiver' % cb.path
+            path = inner[1] + path
+            cur = term['args'][0]
+            continue
+        nm = (callee_name_(term) or '').rsplit('::', 1)[-1]
+        if nm in ('iter', 'into_iter', 'deref'):
+            cur = term['args'][0]
+            continue
+        return 'a factor of the product passes through %s' % nm
+    return 'source chain too long'
+
+
+def callee_name_(term):
+    fn = term.get('func', {})
+    return fn.get('resolved') or fn.get('fn')
+
+
 def full_product_fold(f, b, trait, method, sinks):
     """Is the body `sink(map/any(cartesian_product(self.items.iter(), other.items.iter()), |(s,o)| s.<method>(o)))`?"""
     t = Tracer(b)
@@ -210,13 +247,10 @@ def full_product_fold(f, b, trait, method, sinks):
     cp = [c for c in chain if c[0] == 'cartesian_product'][0][1]
     roots = []
     for a in cp['args'][:2]:
-        s2, ch2 = adaptor_chain(t, a)
-        bad2 = [x[0] for x in ch2 if x[0] not in ('into_iter', 'iter', 'deref')]
-        if bad2:
-            return False, 'a factor of the product passes through %s' % bad2
-        if s2['o'] != 'arg':
-            return False, 'a factor of the product does not come from a parameter'
-        roots.append((s2['l'], field_path(s2['p'])))
+        r = _items_source(f, t, a, 0)
+        if isinstance(r, str):
+            return False, r
+        roots.append(r)
     if sorted(r[0] for r in roots) != [1, 2] or any(r[1] != ['items'] for r in roots):
         return False, 'the product is not self.items x other.items: %s' % roots
     # the closure applies the leaf method to its own pair
